@@ -1,7 +1,9 @@
 SPECIFICATION Spec
 CONSTANTS
   N = 3
+  NPre = 2
   FmIds = {"domain", "plain", "broken", "partial"}
   EmitIds = {"domain", "plain", "broken"}
-INVARIANTS FunctionForm A B C Domain BrokenFails EmitInv
+  Rep <- AsCode
+INVARIANTS FunctionForm A B C Domain Classified EmitInv
 CHECK_DEADLOCK FALSE
